@@ -281,6 +281,15 @@ func chosencasesLoadAmmo(t *tr, pkg *packages.Package) string {
 		"as errors.Is sees it, `RunRes.nil` = no error; `ctxCanceled` = ctx.Err() is context.Canceled, otherwise nil);\n" +
 		"`none` = loadAmmo goes on to the filter loop -/\n" +
 		"def loadAmmoFail (ctxCanceled : Bool) (errV : RunRes) : Option RunRes :=\n" + failTerm + "\n\n"
+	// round 6: the same statements read once more for WHAT KIND of error value is returned (see retBare)
+	lf.bare = true
+	bareTerm := lf.stmts(l[1:j], "  ")
+	lf.bare = false
+	failDef += "/-- regenerated from loadAmmo, the same statements (round 6): is the returned error one whose pkg/errors.Cause is the\n" +
+		"error it stands for — nil, `err` itself when `errBare`, ctx.Err() itself, a sentinel, a pkg/errors wrapper of these —\n" +
+		"(`some true`; core/engine's errutil.IsCtxError recognises a cancellation only then) or one wrapped with `%w` /\n" +
+		"made by fmt.Errorf, xerrors.Errorf, errors.New (`some false`); `none` = control reaches the filter loop -/\n" +
+		"def loadAmmoFailBare (ctxCanceled : Bool) (errV : RunRes) (errBare : Bool) : Option Bool :=\n" + bareTerm + "\n\n"
 	return failDef + chosencasesSymKeep(t, pkg, fd) // round 4: symbolic execution (area_chosencases_symloops.go)
 }
 
@@ -498,6 +507,9 @@ func chosencasesWrapVerbs(format string) (wArgs []int, ok bool) {
 // class of a returned error expression
 func (f *chosencasesLF) ret(e ast.Expr) string {
 	e = f.unparen(e)
+	if f.bare {
+		return f.retBare(e)
+	}
 	switch {
 	case f.isNil(e):
 		return "RunRes.nil"
@@ -528,6 +540,28 @@ func (f *chosencasesLF) ret(e ast.Expr) string {
 				return "(loadAmmoWrap " + f.ret(args[ws[0]+1]) + ")"
 			}
 		}
+	}
+	return f.x.fail(e, "error value returned by loadAmmo: %s", chosencasesSrc(f.pkg, e))
+}
+
+// retBare (round 6): is the returned error value "bare" — its pkg/errors.Cause is the value it stands for (errutil.IsCtxError
+// compares Cause(err) with ctx.Err()): nil, err (as bare as it came: errBare), CTX, context.Canceled, a sentinel and
+// pkg/errors wrappers of these are; fmt.Errorf / xerrors.Errorf (with or without %w) and errors.New are not.
+func (f *chosencasesLF) retBare(e ast.Expr) string {
+	switch {
+	case f.isNil(e), f.isCtxErr(e):
+		return "true"
+	case f.isErr(e):
+		return "errBare"
+	}
+	if _, ok := f.targetClass(e); ok {
+		return "true"
+	}
+	if _, _, args, ok := f.pkgCall(e, map[string]bool{"Wrap": true, "Wrapf": true, "WithMessage": true, "WithMessagef": true, "WithStack": true}, "github.com/pkg/errors"); ok && len(args) >= 1 {
+		return f.retBare(f.unparen(args[0]))
+	}
+	if _, _, _, ok := f.pkgCall(e, map[string]bool{"New": true, "Errorf": true}, "errors", "fmt", "golang.org/x/xerrors", "github.com/pkg/errors"); ok {
+		return "false"
 	}
 	return f.x.fail(e, "error value returned by loadAmmo: %s", chosencasesSrc(f.pkg, e))
 }
